@@ -38,6 +38,8 @@ var baseTree = []srcFile{
 	{path: "src/d/sub", dir: true, mode: 0o2775, mtime: 1600000013},
 	{path: "src/d/sub/z", mode: 0o4755, data: "zzz", mtime: 1600000014},
 	{path: "src/d/lnk", link: "x"},
+	{path: "src/d/.keep", mode: 0o644, data: "", mtime: 1600000015},
+	{path: "src/lnkdir", link: "d"},
 	{path: "src/e", dir: true, mode: 0o700, mtime: 1600000020},
 	{path: "src/dangling", link: "/nonexistent/target"},
 	{path: "src/h", dir: true, mode: 0o755, mtime: 1600000030},
